@@ -48,6 +48,7 @@ type Obligation struct {
 	Assumptions []string `json:"assumptions,omitempty"`
 	NoReplay    bool     `json:"no_replay,omitempty"` // sample models are not replayed natively (e.g. schedule dependent)
 	NativeRace  bool     `json:"native_race,omitempty"` // counterexamples are schedule dependent: replay under the race detector, repeated
+	NativeRepeat int     `json:"native_repeat,omitempty"` // counterexamples depend on a select choice: replay this many times (no race detector)
 	WitnessOnly bool     `json:"witness_only,omitempty"`
 }
 
@@ -654,6 +655,9 @@ func nativeReplay(o *Obligation, verifDir, dir string, cases []replayCase) ([]st
 		if o.NativeRace {
 			targs = append(targs, "-race")
 			env = append(env, "VERIF_REPEAT=300")
+		} else if o.NativeRepeat > 0 {
+			env = append(env, fmt.Sprintf("VERIF_REPEAT=%d", o.NativeRepeat))
+			targs[8] = "300s"
 		}
 		cmd := osexec.Command("go", append(targs, "./"+o.Pkg)...)
 		cmd.Dir = repoDir
